@@ -411,7 +411,8 @@ func (c *Ctx) stateFuncs() map[string]*ast.FuncDecl {
 	if st == nil {
 		return out
 	}
-	for obj, fd := range c.funcDecls {
+	for _, it := range c.sortedDecls() {
+		obj, fd := it.obj, it.fd
 		f, ok := obj.(*types.Func)
 		if !ok || f.Pkg() == nil || f.Pkg().Path() != bclPath || fd.Body == nil {
 			continue
@@ -804,7 +805,8 @@ func ruleLexerStops(c *Ctx, r *Report, rule string) {
 	toks := constsOfType(c.Bcl, "tokenType")
 	count := 0
 	bad := ""
-	for obj, fd := range c.funcDecls {
+	for _, it := range c.sortedDecls() {
+		obj, fd := it.obj, it.fd
 		f, ok := obj.(*types.Func)
 		if !ok || f.Pkg() == nil || f.Pkg().Path() != bclPath || fd.Body == nil {
 			continue
